@@ -14,6 +14,8 @@ pub struct CellReferenceIndex { pub sheet: u32, pub row: i32, pub column: i32 }
 // the move being performed (ghost constants the stubs can refer to)
 pub uninterp spec fn g_column() -> int;
 pub uninterp spec fn g_delta() -> int;
+pub uninterp spec fn g_arr_w() -> i32;
+pub uninterp spec fn g_arr_h() -> i32;
 // the attributes a column has when it is read (uninterpreted functions of the column index)
 pub uninterp spec fn aw(c: int) -> f64;        // actual width (ignores the hidden flag)
 pub uninterp spec fn vw(c: int) -> f64;        // visible width
@@ -52,6 +54,25 @@ impl Model {
     pub fn move_cell(&mut self, sheet: u32, source_row: i32, source_column: i32, target_row: i32, target_column: i32) -> (r: Result<(), String>)
         requires source_row == target_row, target_column == move1(source_column as int, g_column(), g_delta())
     { unimplemented!() }
+
+#[verifier::loop_isolation(false)]
+    // re-creating a moved cell: a CSE array whose anchor records r = (width, height) is re-entered with that width and height
+    #[verifier::external_body]
+    pub fn set_user_array_formula(&mut self, sheet: u32, row: i32, column: i32, width: i32, height: i32, value: &str) -> (r: Result<(), String>)
+        requires width == g_arr_w() && height == g_arr_h()
+    { unimplemented!() }
+    #[verifier::external_body]
+    pub fn set_user_input(&mut self, sheet: u32, row: i32, column: i32, value: String) -> (r: Result<(), String>)
+    { unimplemented!() }
+
+pub fn move_cell_recreate(&mut self, sheet: u32, target_row: i32, target_column: i32, array: Option<(i32, i32)>, formula_or_value: String) -> (r: Result<(), String>)
+    requires array.is_some() ==> array.unwrap() == (g_arr_w(), g_arr_h())
+{
+//@fragment base/src/actions.rs Model::move_cell `if let Some((` .. `self.set_user_input(sheet, target_row, target_column, formula_or_value)?;`
+//@end
+        }
+    Ok(())
+}
 
 #[verifier::loop_isolation(false)]
 pub fn band_shift(&mut self, sheet: u32, column: i32, delta: i32, target_column: i32) -> (r: Result<(), String>)
